@@ -33,6 +33,8 @@ CLS = {
 BV_KINDS = ["Variable", "Register", "Immediate", "Number", "Sizeof", "Parameter", "Cast", "ArithmeticOp", "BitOp",
             "Ternary", "MemLoad", "MacroInvocation", "HybridTmp"]
 BOOL_KINDS = ["CompareOp", "BooleanOp", "Bool"]
+# further bit-vector operand shapes some emitters look into (not part of ALL_KINDS: added explicitly where they matter)
+EXTRA_BV_KINDS = ["CastOfNumber", "PredRegister"]
 ALL_KINDS = BV_KINDS + BOOL_KINDS
 
 
@@ -77,10 +79,22 @@ def mk_operand(it, kind, t, label):
     elif kind == "Register":
         RA = enum(L, "Register", "RegisterAccessType")
         o = it.call(C(L, "Register"), ["Rs", RA.R, conc_vt(L, t)], {})
+    elif kind == "PredRegister":
+        # a predicate register operand (Pu): 8 bits, any value (0x00 / 0xff are only the values the compare instructions produce)
+        RA = enum(L, "Register", "RegisterAccessType")
+        o = it.call(C(L, "Register"), ["Pu", RA.R, conc_vt(L, t)], {})
     elif kind == "Immediate":
         o = it.call(C(L, "Immediate"), ["s", conc_vt(L, t)], {})
     elif kind == "Number":
         o = it.call(C(L, "Number"), ["const_1", SInt(z3.Int(label + "_lit")), conc_vt(L, t)], {})
+    elif kind == "CastOfNumber":
+        # a literal of type int that had to be converted to t (what `x < 0` builds for a 64-bit or unsigned x): Cast(t, Number)
+        lit = z3.Int(label + "_lit")
+        num = it.call(C(L, "Number"), ["const_lit", SInt(lit), conc_vt(L, (True, 32))], {})
+        num.fields["inlined"] = True
+        it.ctx.assume(z3.And(lit >= 0, lit < 2 ** 31))       # source literals are non-negative (a folded negative one converted to a wider unsigned type is finding F1)
+        o = it.call(C(L, "Cast"), ["cast", conc_vt(L, t), num], {})
+        o.fields["inlined"] = True
     elif kind == "Sizeof":
         o = it.call(C(L, "Sizeof"), ["op_sizeof", mk_var(it, label + "_v", (True, 32))], {})
         o.fields["value_type"] = conc_vt(L, t)
@@ -120,6 +134,16 @@ def mk_operand(it, kind, t, label):
     else:
         o.ghost["sort"] = ("bv", w)
         o.ghost["den"] = z3.BitVec(label, w)
+    if kind == "CastOfNumber":
+        # den == conv_C11(int -> t) of the literal's value
+        v32 = z3.Int2BV(z3.Int(label + "_lit"), 32)
+        conv = v32 if w == 32 else (z3.Extract(w - 1, 0, v32) if w < 32 else z3.SignExt(w - 32, v32))
+        it.ctx.assume(o.ghost["den"] == conv)
+    if kind == "Number":
+        # the literal's value is what the node denotes: den == the w-bit pattern of its (in-range) value
+        lit = z3.Int(label + "_lit")
+        it.ctx.assume(z3.And(lit >= (-(2 ** (w - 1)) if t[0] else 0), lit < (2 ** (w - 1) if t[0] else 2 ** w)))
+        it.ctx.assume(o.ghost["den"] == z3.Int2BV(lit, w))
     o.ghost["kind"] = kind
     o.ghost["ctype"] = t
     o.stubs["il_read"] = il_read_stub
